@@ -125,6 +125,39 @@ def run(payload):
                         fail(label, "enforce on a matrix right-hand side must zero exactly the constrained rows (diag 0)")
                 except Exception as e:
                     fail(label, "eigen reduction raised %s: %s" % (type(e).__name__, e))
+        # value types: the expanded solution carries the solution's own type (a complex system with a real load, x omitted or given as real numbers; an
+        # integer-valued load), and eigen-modes expanded by solve carry the prescribed values on the constrained indices
+        Dall = basis.get_dofs().flatten()
+        Iall = np.setdiff1d(np.arange(N), Dall)
+        from skfem.utils import solver_eigen_scipy_sym
+        for tname, A_t, f_t, kwx in (("complex-matrix-real-load-x-omitted", (A + M) + 1j * M, f.copy(), {}),
+                                     ("complex-matrix-real-x", (A + M) + 1j * M, f.copy(), dict(x=x.copy())),
+                                     ("integer-load-x-omitted", A + M, np.round(40 * f / max(1e-30, np.abs(f).max())).astype(np.int64), {})):
+            cases += 1
+            label = "%s/types/%s" % (name, tname)
+            if only and only != label:
+                continue
+            try:
+                y = solve(*condense(A_t.tocsr(), f_t, D=Dall, **kwx))
+                res = (A_t @ y - f_t)[Iall]
+                if np.max(np.abs(res)) > 1e-9 * max(1.0, np.max(np.abs(f_t))):
+                    fail(label, "original equations violated on kept rows after expansion: max residual %.3e (result dtype %s)" % (np.max(np.abs(res)), y.dtype))
+                want_D = kwx["x"][Dall] if "x" in kwx else 0.0
+                if np.max(np.abs(y[Dall] - want_D)) > 0:
+                    fail(label, "expanded solution differs from x on the constrained indices")
+            except Exception as e:
+                fail(label, "condense+solve raised %s: %s" % (type(e).__name__, e))
+        cases += 1
+        label = "%s/eigen-expand" % name
+        if not only or only == label:
+            try:
+                xx = np.zeros(N)
+                xx[Dall] = rng.uniform(.5, 1.5, len(Dall))
+                lam, modes = solve(*condense(A + M, M, x=xx, D=Dall), solver=solver_eigen_scipy_sym(k=3, sigma=0.0))
+                if modes.shape != (N, 3) or not all(np.array_equal(modes[Dall, j], xx[Dall]) for j in range(3)):
+                    fail(label, "expanded eigen-modes do not carry the prescribed values x on the constrained indices (shape %s)" % (modes.shape,))
+            except Exception as e:
+                fail(label, "eigen expansion raised %s: %s" % (type(e).__name__, e))
         # overwrite=True really overwrites, overwrite=False never
         A2, f2 = A.copy(), f.copy()
         Ae, fe = enforce(A2, f2, D=basis.get_dofs().flatten(), overwrite=True)
